@@ -71,10 +71,11 @@ class Case:
 class Backend:
     """supplies inputs to a harness: solver variables (symbolic) or model values (concrete)"""
 
-    def __init__(self, symbolic, env=None, fd=None):
+    def __init__(self, symbolic, env=None, fd=None, fill_seed=None):
         self.symbolic = symbolic
         self.env = env or {}
         self.fd = fd
+        self.fill_seed = fill_seed      # concrete mode: inputs missing from env get a reproducible pseudo-random dyadic value
         self.dom = {}
         self.case = Case()
         if symbolic:
@@ -91,6 +92,12 @@ class Backend:
         if self.symbolic:
             return P(tm.var(name))
         v = self.env.get(name)
+        if v is None and self.fill_seed is not None:
+            h = int(hashlib.sha256(('%s|%s' % (name, self.fill_seed)).encode()).hexdigest()[:8], 16) / 2.0 ** 32
+            v = math.floor((lo + (hi - lo) * (0.05 + 0.9 * h)) * 1024) / 1024.0
+            if v == 0.0:
+                v = 1.0 / 1024
+            self.env[name] = v
         if v is None:
             v = (lo + hi) / 2.0
         return float(Fraction(v)) if not isinstance(v, float) else v
@@ -558,6 +565,36 @@ def replay_subprocess(pid, cfg, env, obname, decisions=None, keep=None):
         return {'status': 'error', 'path': path, 'detail': 'replay timeout'}
 
 
+def sample_fallback(pid, cfg):
+    """concrete execution of the harness at pseudo-random points (subprocess, real build); returns {'obligation','env','replay'} only
+    when a violated obligation was found AND the ordinary replay of that point reproduces it"""
+    cfg = {k: v for k, v in cfg.items() if not k.startswith('_')}
+    case = {'property': pid, 'cfg': cfg, 'env': {}, 'mode': 'sample', 'obligation': None}
+    d = os.path.join(OUT, 'replays')
+    os.makedirs(d, exist_ok=True)
+    path = os.path.join(d, '%s-sample-%s.json' % (pid, hashlib.sha256(cfg_key(cfg).encode()).hexdigest()[:10]))
+    json.dump(case, open(path, 'w'))
+    try:
+        out = subprocess.run([REPLAY_PY, os.path.join(VERIF, 'vt', 'replay_main.py'), path], capture_output=True, text=True, timeout=300,
+                             env=dict(os.environ, PYTHONPATH=VERIF))
+        last = [ln for ln in out.stdout.splitlines() if ln.startswith('REPLAY ')]
+        r = json.loads(last[-1][7:]) if last else {}
+    except Exception:
+        return None
+    finally:
+        try:
+            os.remove(path)
+        except OSError:
+            pass
+    if r.get('status') != 'sample-violation':
+        return None
+    env = {k: float(v) for k, v in r['env'].items()}
+    rep = replay_subprocess(pid, cfg, env, r['obligation'], None)
+    if rep.get('status') not in ('reproduced', 'reproduced-other'):
+        return None
+    return {'obligation': r['obligation'], 'env': _jsonable_env(env), 'replay': rep}
+
+
 def _parse_num(v):
     try:
         return Fraction(v)
@@ -571,6 +608,8 @@ def replay_case(case):
     mod = load_prop(case['property'])
     fd = loader.fresh(symbolic=False)
     env = {k: (_parse_num(v) if isinstance(v, str) else v) for k, v in case['env'].items()}
+    if case.get('mode') == 'sample':
+        return _sample_case(case, mod, fd)
     B = Backend(False, env=env, fd=fd)
     import warnings
     import numpy
@@ -606,6 +645,34 @@ def replay_case(case):
         return {'status': 'reproduced-other', 'violated': [h['name'] for h in hits][:10], 'detail': hits[0]['detail']}
     names = [o.name for o in B.case.obs]
     return {'status': 'not-reproduced', 'detail': 'obligation present: %s' % (want in names)}
+
+
+def _sample_case(case, mod, fd):
+    """fallback when the SYMBOLIC execution of a configuration aborted (exception in the traced code or an operation outside the numpy
+    model): the same harness is executed concretely on the real build at a few reproducible pseudo-random admissible points. A
+    violated obligation (or an exception of the real code) found this way is a real failing input; nothing is concluded otherwise."""
+    import warnings
+    import numpy
+    for seed in range(int(case.get('tries', 8))):
+        B = Backend(False, env={}, fd=fd, fill_seed=seed)
+        exc = None
+        with warnings.catch_warnings():
+            warnings.simplefilter('ignore')
+            with numpy.errstate(all='ignore'):
+                try:
+                    mod.harness(case['cfg'], B)
+                except Exception as e:
+                    exc = '%s: %s' % (type(e).__name__, e)
+        if not all(B.case.assume):
+            continue
+        envj = {k: repr(v) for k, v in B.env.items()}
+        if exc is not None:
+            return {'status': 'sample-exception', 'detail': exc, 'env': envj, 'seed': seed}
+        for o in B.case.obs:
+            v, det = concrete_violated(o)
+            if v:
+                return {'status': 'sample-violation', 'obligation': o.name, 'detail': det, 'env': envj, 'seed': seed}
+    return {'status': 'sample-clean'}
 
 
 # ----------------------------------------------------------------------------------------
@@ -865,6 +932,7 @@ def report(mod, pid, tier, seed, recs, wall, verbose=False, partial=False):
     vac = 0
     xstats = {}
     fid = {'configs': 0, 'values_compared': 0, 'max_rel_diff': 0.0}
+    nfallback = 0
     for r in recs:
         fr = r.get('fidelity_result')
         if fr:
@@ -874,7 +942,18 @@ def report(mod, pid, tier, seed, recs, wall, verbose=False, partial=False):
             if fr['mismatches']:
                 harness_errors.append({'cfg': r['cfg'], 'error': 'translator validation mismatch (numpy model vs real numpy)', 'detail': fr['mismatches']})
         if r['error']:
-            harness_errors.append({'cfg': r['cfg'], 'error': r['error']})
+            fb = sample_fallback(pid, r['cfg']) if nfallback < 6 else None
+            nfallback += 1
+            if fb is not None:
+                # the symbolic run aborted, but the same harness executed concretely on the real build violates an obligation at a
+                # reproducible point: a real failing input (found by the fallback, not by the solver - said so in the evidence)
+                r['obligations'].append({'name': fb['obligation'], 'kind': 'fallback', 'verdict': 'cex', 's': 0.0, 'size': 0, 'method': 'concrete-fallback',
+                                         'env': fb['env'], 'replay': fb['replay'],
+                                         'note': 'symbolic execution of this configuration aborted (%s); concrete execution of the same harness '
+                                                 'at a pseudo-random admissible point violates this obligation' % str(r['error']).splitlines()[0][:160]})
+                notes.append('concrete fallback used for a configuration whose symbolic execution aborted')
+            else:
+                harness_errors.append({'cfg': r['cfg'], 'error': r['error']})
         for k in stats:
             stats[k] += r.get('stats', {}).get(k, 0)
         paths += r.get('paths', 0)
